@@ -426,14 +426,14 @@ example (s : CSt) (hist : List Op) (h : ∀ op ∈ hist, InScopeCH cR cRE OneNam
   ownersOk_of_oneName hist s h
 
 /-- **`_reabsorb_solver(m)` re-establishes the bookkeeping invariant** — both branches — when it is called, with the invariant in
-force, on a child `m` that holds exactly the constraints of the children owning its variables, all children being satisfiable
+force, on a child `m` that holds exactly the constraints of the children owning its variables, those children being satisfiable
 (the situation after `_ensure_sat`, `_solver_for_names` and the child's query) -/
 theorem C12_reabsorb_keeps_invariant {E : Env} {R : Con → Prop} {RE : Exp → Prop} (H : SolverHyps R RE E)
     (U : List Con) (Us : List (List Con)) (s : CSt) (m : Nat) (h : CInv R RE E U Us s) (hm : m < s.w.fes.length)
     (hkeys : ∀ v ∈ (s.child m).variables, ∃ t, alGet? s.c.solvers v = some t)
     (hsup : ∀ t ∈ s.c.solversFor (s.child m).variables, ∀ v ∈ (s.child t).variables, v ∈ (s.child m).variables)
     (hsem : ∀ a, Models (Us.getD m []) a ↔ ∀ t ∈ s.c.solversFor (s.child m).variables, Models (Us.getD t []) a)
-    (hsat : ∀ t ∈ s.c.solverList, Satisfiable (Us.getD t [])) (hun : s.c.unsat = false)
+    (hsat : ∀ t ∈ s.c.solversFor (s.child m).variables, Satisfiable (Us.getD t [])) (hun : s.c.unsat = false)
     (s' : CSt) (hrun : reabsorb E m s = (.ok (), s')) : ∃ Us', CInv R RE E U Us' s' :=
   reabsorbKeeps H U Us s m h hm hkeys hsup hsem hsat hun s' hrun
 
